@@ -32,6 +32,17 @@ theorem literal_sound {α : Type} (o : Ops α) (ρ : Env α) (e : Expr) :
     (∀ m n i j, shape e = [m, n] → i < m → j < n → ev o ρ (toLit1 e) i j = ev o ρ e i j) :=
   ⟨fun n i hs hi => toLit1_vec o ρ e n i hs hi, fun m n i j hs hi hj => toLit1_mat o ρ e m n i j hs hi hj⟩
 
+/-- **literal_tree_sound.**  The whole pass `vf.transform(_to_literal_vec_mat)` (children first, then
+the node) keeps the shape and every entry of every well-shaped expression (`WSh`: the shape
+asserts of the Python constructors; `InRange`: the entries of that shape). -/
+theorem literal_tree_sound {α : Type} (o : Ops α) (ρ : Env α) (e : Expr) (h : WSh e = true) :
+    shape (toLit e) = shape e ∧ ∀ i j, InRange (shape e) i j → ev o ρ (toLit e) i j = ev o ρ e i j :=
+  toLit_sound o ρ e h
+
+/-- non-vacuity: `A·x + x` for a 2×2 literal matrix is well-shaped -/
+example : WSh (top .add (matvec (litmat 2 2 [gw 0, gw 1, dx, ds]) (litvec [gw 0, gw 1])) (litvec [gw 0, gw 1])) = true := by
+  simp [WSh, shape, ncols]
+
 /-- **transpose_sound.**  Entry `(i,j)` of `e.T` is entry `(j,i)` of `e`. -/
 theorem transpose_sound {α : Type} (o : Ops α) (ρ : Env α) (e : Expr) (m n i j : Nat)
     (hs : shape e = [m, n]) (hi : i < n) (hj : j < m) :
